@@ -448,8 +448,34 @@ class Gen:
         # observe the final state
         for v, k in sorted(sc.vars.items()):
             xs.append(Core("print", [Id(v)]))
-        xs.append(self.expr(sc, self.any_kind(), 2))
+        t = self.tail(sc)
+        xs += t["xs"] if t["k"] == "block" else [t]
         return Block(xs)
+
+    def tail(self, sc):
+        """The last expression of a program / function body (its value is the result): an expression, or a
+        block construct in result position -- in particular loops that never run (null), if without else,
+        switch without a matching arm."""
+        r = self.r
+        c = r.random()
+        if c < 0.6:
+            return self.expr(sc, self.any_kind(), 2)
+        # first use some temporaries, so that a stale register would be visible
+        pre = Asg(sc.fresh(), Bin("*", Int(r.choice([3, 5])), Int(r.choice([4, 7]))))
+        sc.vars[pre["n"]] = "num"
+        if c < 0.75:
+            it = r.choice([lambda: List([]), lambda: Range(Int(0), Int(0)), lambda: Str(""), lambda: Tuple([]),
+                           lambda: Range(Int(2), Int(r.choice([2, 3])))])()
+            node = For([sc.fresh("i")], it, Block([self.expr(sc, "num", 1)]))
+        elif c < 0.82:
+            node = While(Bool(False), Block([self.expr(sc, "num", 1)])) if r.random() < 0.5 else \
+                Until(Bool(True), Block([self.expr(sc, "num", 1)]))
+        elif c < 0.92:
+            node = If([self.expr(sc, "bool", 1)], [Block([self.expr(sc, "num", 1)])])
+        else:
+            node = Switch([self.expr(sc, "bool", 1), self.expr(sc, "bool", 1)],
+                          [Block([self.expr(sc, "num", 1)]), Block([self.expr(sc, "num", 1)])])
+        return Block([pre, node])
 
 
 # ---- bounded-exhaustive operator trees ----------------------------------------------------------------
